@@ -1,3 +1,263 @@
-(* Properties/C11.v — placeholder; replaced by the theorems of DESIGN §5 C11. *)
-From Coq Require Import List NArith ZArith Bool.
-Require Import GV.Base.Res GV.Model.UnitWr.
+(* Properties/C11.v — written units read back as the same forest with every reference intact.
+   Statements only (`exact lemma`), non-vacuity examples, pins.  The model is Model/UnitWr.v (mirror of
+   src/write/unit.rs, abbrev.rs, str.rs), the meaning of the bytes is Spec/UnitWrSpec.v.
+   Two hypotheses recur and are not restrictions of the property:
+     * `expr_ok` / the x_size–x_out link: an Expression's predicted size is the number of bytes it writes
+       (that is C15's theorem; expressions are opaque here);
+     * `... < 2 ^ 64`: the unit fits the address space (usize sums cannot overflow in a running program);
+       the model keeps the overflow checks, so this has to be said. *)
+From Coq Require Import List NArith ZArith Bool Permutation.
+From Coq.Strings Require Import Byte.
+Require Import GV.Base.Res GV.Base.Byt GV.Base.Ints GV.Model.Leb GV.Model.Prim.
+Require Import GV.Spec.UnitWrSpec GV.Model.UnitWr GV.Proofs.UnitWrProofs.
+Import ListNotations.
+Local Open Scope N_scope.
+
+(* ---------------------------------------------------------------- (1) form / size / write agree *)
+
+(* For EVERY write::AttributeValue variant, encoding (any version, format, address size), byte order
+   and build mode: when `write` emits the value, `size` predicted exactly the number of bytes emitted
+   (placeholders included). The debug_assert_form! checks inside both functions never fire. *)
+Theorem form_size_write_len : forall (dbg : bool) (cx : wcx) (v : aval) (ops : list wop),
+  av_write dbg cx v = Ok ops -> expr_ok v -> ops_len ops < 2 ^ 64 ->
+  av_size dbg (wc_enc cx) v = Ok (ops_len ops).
+Proof. exact av_write_size. Qed.
+
+(* ... and those bytes are laid out as the DW_FORM chosen by `form` prescribes: decoding them under that
+   form (Spec.form_decode, the C03 reading) consumes exactly them and yields the value (placeholders: 0). *)
+Theorem form_size_write_decodes : forall (dbg : bool) (cx : wcx) (v : aval) (ops : list wop) (rest : list byte),
+  av_write dbg cx v = Ok ops -> av_decodable v ->
+  form_decode (wc_enc cx) (wc_be cx) (fst (av_form (wc_enc cx) v))
+              (match snd (av_form (wc_enc cx) v) with Some z => z | None => 0%Z end)
+              (ops_bytes ops ++ rest) = Some (av_raw cx v, rest).
+Proof. exact av_write_decodes. Qed.
+
+Example form_size_write_ex :
+  let cx := mkWcx (mkEnc 5 false 8) false 0 0 [] [] None [] [7] [] [] in
+  av_write true cx (AvUdata 300) = Ok [WB [xac; x02]] /\ av_size true (wc_enc cx) (AvUdata 300) = Ok 2 /\
+  av_write true cx AvFlagPresent = Ok [] /\ av_size true (wc_enc cx) AvFlagPresent = Ok 0 /\
+  av_write true cx (AvStringRef 0) = Ok [WB [x07; x00; x00; x00]] /\
+  av_write true cx (AvUnitRef (mkEid 0 3)) = Ok [WUnitRef (mkEid 0 3) 4].
+Proof. vm_compute. repeat split; reflexivity. Qed.
+
+(* ---------------------------------------------------------------- (2) offsets_exact / refs_resolve *)
+
+(* calculate_offsets assigns to every entry of the tree exactly the position at which `write` later emits
+   it (WMark = the point of the debug_assert that opens DebuggingInformationEntry::write), the running offset
+   ends where the written bytes end, and the entries are visited in the same (pre)order. `cx` carries the
+   tables calculate_offsets produced, as in Unit::write. *)
+Theorem offsets_exact : forall (dbg : bool) (cx : wcx) (root : die) (st0 st : cst) (ops : list wop),
+  calc dbg (wc_enc cx) root st0 = Ok st ->
+  wc_codes cx = cs_codes st ->
+  write_die dbg cx root (cs_off st0) = Ok ops ->
+  NoDup (die_ids root) -> die_expr_ok root ->
+  cs_off st0 + ops_len ops < 2 ^ 64 ->
+  cs_off st = cs_off st0 + ops_len ops /\
+  map fst (ops_marks (cs_off st0) ops) = die_ids root /\
+  (forall i p, In (i, p) (ops_marks (cs_off st0) ops) -> nth_error (cs_entries st) i = Some p).
+Proof. exact offsets_exact_lemma. Qed.
+
+(* Hence every UnitRef placeholder — forward or backward — is patched with the unit-relative offset of the
+   position where its target was emitted, nothing else in the section changes, and in a build with debug
+   assertions the id was issued by this unit. *)
+Theorem refs_resolve : forall (dbg : bool) (cx : wcx) (root : die) (st0 st : cst) (ops : list wop)
+    (pre post sec' : list byte) (f : eid -> list byte),
+  calc dbg (wc_enc cx) root st0 = Ok st ->
+  wc_codes cx = cs_codes st ->
+  write_die dbg cx root (cs_off st0) = Ok ops ->
+  NoDup (die_ids root) -> die_expr_ok root ->
+  cs_off st0 + ops_len ops < 2 ^ 64 ->
+  (forall j y, nth_error (cs_entries st0) j = Some y -> y = 0) ->
+  UnitWr.blen pre = cs_off st0 -> wc_unit_off cx <= cs_off st0 ->
+  (forall id b, ref_value dbg (wc_be cx) (wc_unit cx) (wc_unit_off cx) (cs_entries st) (wsz (wc_enc cx)) id = Some b -> f id = b) ->
+  patch_unit_refs dbg (wc_be cx) (wc_unit cx) (wc_unit_off cx) (cs_entries st) (wsz (wc_enc cx))
+                  (ops_unit_refs (cs_off st0) ops) (pre ++ ops_bytes ops ++ post) = Ok sec' ->
+  sec' = pre ++ ops_resolved f ops ++ post /\
+  (forall id w', In (WUnitRef id w') ops ->
+     exists p, In (id_idx id, p) (ops_marks (cs_off st0) ops) /\
+               write_udata (wc_be cx) (p - wc_unit_off cx) (wsz (wc_enc cx)) = Ok (f id) /\
+               (dbg = true -> id_unit id = wc_unit cx)).
+Proof. exact refs_resolve_lemma. Qed.
+
+(* a tree with a forward and a backward reference, a sibling pointer and a shared abbreviation *)
+Definition ex_enc : encoding := mkEnc 4 false 8.
+Definition ex_root : die :=
+  Die 0 17 true [(3, AvString [x61]); (73, AvUnitRef (mkEid 0 2))]
+      [Die 1 36 false [(11, AvUdata 300)] [];
+       Die 2 46 false [(49, AvUnitRef (mkEid 0 1))] [];
+       Die 3 36 false [(11, AvUdata 7)] []].
+Definition ex_st0 : cst := mkCst 11 [0; 0; 0; 0] [] [0; 0; 0; 0].
+Definition ex_st : cst := mkCst 37 [11; 23; 27; 33] [] [1; 2; 3; 2].
+
+Example offsets_exact_ex :
+  exists st ops,
+    calc true ex_enc ex_root ex_st0 = Ok st /\ cs_entries st = cs_entries ex_st /\ cs_codes st = cs_codes ex_st /\
+    write_die true (mkWcx ex_enc false 0 0 (cs_entries st) (cs_codes st) None [] [] [] []) ex_root 11 = Ok ops /\
+    ops_marks 11 ops = [(0%nat, 11); (1%nat, 23); (2%nat, 27); (3%nat, 33)] /\
+    cs_off st = 37 /\ ops_len ops = 26 /\ NoDup (die_ids ex_root) /\
+    ops_unit_refs 11 ops = [(18, mkEid 0 2); (28, mkEid 0 1)].
+Proof.
+  eexists. eexists. vm_compute.
+  repeat split; try reflexivity.
+  repeat constructor; cbn; intuition discriminate.
+Qed.
+
+(* ---------------------------------------------------------------- (3) abbreviation de-duplication *)
+
+(* AbbreviationTable::add returns the 1-based position of the FIRST occurrence of the abbreviation in the
+   table that is later written in code order (so the spec-level lookup of that code finds it), a new
+   abbreviation gets code n+1 and is appended, a known one leaves the table untouched, and the table never
+   holds an abbreviation twice. *)
+Theorem abbrev_codes : forall (tab : list abbrev) (a : abbrev) (code : N) (tab' : list abbrev),
+  abbrev_add tab a = (code, tab') ->
+  abbrev_lookup tab' code = Some a /\
+  1 <= code <= N.of_nat (length tab') /\
+  (forall c, c < code -> abbrev_lookup tab' c <> Some a) /\
+  (In a tab -> tab' = tab) /\ (~ In a tab -> tab' = tab ++ [a] /\ code = N.of_nat (length tab) + 1) /\
+  (NoDup tab -> NoDup tab').
+Proof. exact abbrev_add_spec. Qed.
+
+(* equal (tag, children flag, attribute specifications) |-> the same code, in every later state of the table *)
+Theorem abbrev_dedup : forall (tab : list abbrev) (a : abbrev) (code : N) (tab' ext : list abbrev),
+  abbrev_add tab a = (code, tab') -> NoDup (tab' ++ ext) ->
+  abbrev_add (tab' ++ ext) a = (code, tab' ++ ext).
+Proof. exact abbrev_add_again. Qed.
+
+Example abbrev_dedup_ex :
+  let a := mkAbbrev 36 false [mkAspec 11 15 0] in
+  let b := mkAbbrev 46 false [mkAspec 49 19 0] in
+  abbrev_add [] a = (1, [a]) /\ abbrev_add [a] b = (2, [a; b]) /\ abbrev_add [a; b] a = (1, [a; b]) /\
+  NoDup ([a] ++ [b]).
+Proof. vm_compute. repeat split; try reflexivity. repeat constructor; cbn; intuition discriminate. Qed.
+
+(* ---------------------------------------------------------------- (4) string tables *)
+
+(* StringTable / LineStringTable ::add on a table satisfying the invariant (no duplicates, offsets = start
+   positions, len = total): the invariant is kept, the id names a copy of the string, a string already
+   present is not stored again, earlier ids and offsets are stable. *)
+Theorem strings_add : forall (dbg : bool) (t : strtab) (s : list byte) (i : nat) (t' : strtab),
+  strtab_wf t -> strtab_add dbg t s = Ok (i, t') ->
+  UnitWr.blen (strs_bytes (st_strings t')) < 2 ^ 64 ->
+  strtab_wf t' /\ nth_error (st_strings t') i = Some s /\
+  (In s (st_strings t) -> t' = t) /\
+  (~ In s (st_strings t) -> st_strings t' = st_strings t ++ [s] /\ i = length (st_strings t)) /\
+  (forall j x, nth_error (st_strings t) j = Some x -> nth_error (st_strings t') j = Some x) /\
+  (forall j o, nth_error (st_offsets t) j = Some o -> nth_error (st_offsets t') j = Some o).
+Proof. exact strtab_add_spec. Qed.
+
+(* equal strings |-> equal ids |-> one copy *)
+Theorem strings_shared : forall (dbg : bool) (t : strtab) (s : list byte) (i : nat) (t' : strtab),
+  strtab_add dbg t s = Ok (i, t') -> strtab_wf t ->
+  UnitWr.blen (strs_bytes (st_strings t')) < 2 ^ 64 ->
+  strtab_add dbg t' s = Ok (i, t').
+Proof. exact strtab_add_again. Qed.
+
+(* offset(id) is the position of that copy (NUL-terminated) in the bytes `write` produces *)
+Theorem strings_offset : forall (t : strtab) (i : nat) (s : list byte) (o : N),
+  strtab_wf t -> nth_error (st_strings t) i = Some s -> nth_error (st_offsets t) i = Some o ->
+  exists pre post, strtab_write t = pre ++ (s ++ [x00]) ++ post /\ UnitWr.blen pre = o.
+Proof. exact strtab_offset_points. Qed.
+
+Example strings_ex :
+  strtab_wf strtab_empty /\
+  exists t1 t2,
+    strtab_add true strtab_empty [x68; x69] = Ok (0%nat, t1) /\ strtab_add true t1 [x61] = Ok (1%nat, t2) /\
+    strtab_add true t2 [x68; x69] = Ok (0%nat, t2) /\ st_offsets t2 = [0; 3] /\
+    strtab_write t2 = [x68; x69; x00; x61; x00].
+Proof. split; [exact strtab_empty_wf|]. eexists. eexists. vm_compute. repeat split; reflexivity. Qed.
+
+(* ---------------------------------------------------------------- (5) unencodable requests are errors *)
+
+(* the classified requests (symbolic address / reference without a relocating writer, a value that does not
+   fit its field — offsets >= 2^32 in the 32-bit format, addresses wider than the address size —, a field
+   width other than 1/2/4/8, DW_AT_stmt_list-style reference without a line program) are refused with the
+   stated error in both build modes: never bytes, never a panic *)
+Theorem unencodable_is_error : forall (dbg : bool) (cx : wcx) (v : aval) (er : error),
+  av_unencodable cx v = Some er -> av_write dbg cx v = Err er.
+Proof. exact unencodable_is_error_lemma. Qed.
+
+(* and these are the only ones: every other well-typed value is written *)
+Theorem encodable_is_ok : forall (dbg : bool) (cx : wcx) (v : aval),
+  av_typed cx v -> av_unencodable cx v = None -> exists ops, av_write dbg cx v = Ok ops.
+Proof. exact encodable_is_ok_lemma. Qed.
+
+(* a reference to an entry outside the written tree (deleted child, reserved and never added, orphan)
+   never produces output *)
+Theorem dangling_ref_is_error : forall (dbg : bool) (e : encoding) (root : die) (st0 st : cst) (be : bool)
+    (unit : nat) (unit_off w : N) (refs : list (N * eid)) (sec : list byte) (off : N) (id : eid),
+  calc dbg e root st0 = Ok st ->
+  (forall j y, nth_error (cs_entries st0) j = Some y -> y = 0) ->
+  In (off, id) refs -> ~ In (id_idx id) (die_ids root) ->
+  forall sec', patch_unit_refs dbg be unit unit_off (cs_entries st) w refs sec <> Ok sec'.
+Proof. exact dangling_ref_is_error_lemma. Qed.
+
+(* cross-unit fix-ups: success means every fix-up found its unit and a calculated entry offset *)
+Theorem fixups_all_resolve : forall (dbg be : bool) (units : list tunit) (fx : list fixup) (info info' : list byte),
+  table_fixups dbg be units fx info = Ok info' ->
+  forall f, In f fx ->
+  exists t o, nth_error units (fx_unit f) = Some t /\
+              debug_info_offset dbg (fx_unit f) (tu_entries t) (fx_entry f) = Ok (Some o).
+Proof. exact table_fixups_all_resolve. Qed.
+
+Example unencodable_ex :
+  let cx := mkWcx (mkEnc 4 false 4) false 0 0 [] [] None [] [] [] [] in
+  av_unencodable cx (AvAddress (ASym 1 0)) = Some WInvalidAddress /\
+  av_unencodable cx (AvAddress (AConst 4294967296)) = Some WValueTooLarge /\
+  av_unencodable cx (AvDebugStrRefSup 4294967296) = Some WValueTooLarge /\
+  av_unencodable cx AvLineProgramRef = Some WInvalidAttributeValue /\
+  av_unencodable cx (AvDebugInfoRef (DSym 0)) = Some WInvalidReference /\
+  av_unencodable (mkWcx (mkEnc 2 false 3) false 0 0 [] [] None [] [] [] []) (AvDebugInfoRef (DEntry 0 (mkEid 0 1)))
+    = Some WUnsupportedWordSize /\
+  av_typed cx (AvUdata 5) /\ av_unencodable cx (AvUdata 5) = None.
+Proof. vm_compute. repeat split; try reflexivity. Qed.
+
+(* The property demands an error for a reference to an id that was reserved and lies beyond the entries
+   vector; the faithful model panics instead (known finding, see known_findings.txt): *)
+Example dangling_reserved_id_refuted :
+  exists entries id, unit_offset false 0 0 entries id = Panic /\ entries = [0; 12] /\ id = mkEid 0 2.
+Proof. exists [0; 12], (mkEid 0 2). vm_compute. repeat split; reflexivity. Qed.
+
+(* ---------------------------------------------------------------- (6) base types first *)
+
+(* reorder_base_types replaces the root's children by the stable partition (base types, then the rest) and
+   touches nothing else *)
+Theorem base_types_first : forall (ents ents' : list entry),
+  reorder_base_types ents = Ok ents' ->
+  exists root,
+    nth_error ents 0 = Some root /\
+    nth_error ents' 0 =
+      Some (mkEntry (en_parent root) (en_tag root) (en_sibling root) (en_attrs root)
+                    (filter (tag_is_base ents) (en_children root) ++
+                     filter (fun c => negb (tag_is_base ents c)) (en_children root))) /\
+    (forall j, j <> 0%nat -> nth_error ents' j = nth_error ents j) /\
+    length ents' = length ents.
+Proof. exact reorder_base_types_spec. Qed.
+
+(* ... which is a permutation of the children *)
+Theorem base_types_first_perm : forall (A : Type) (p : A -> bool) (l : list A),
+  Permutation (filter p l ++ filter (fun x => negb (p x)) l) l.
+Proof. exact @filter_partition_perm. Qed.
+
+Example base_types_first_ex :
+  let e t ch := mkEntry None t false [] ch in
+  exists ents', reorder_base_types [e 17 [1; 2; 3; 4]%nat; e 46 []; e 36 []; e 52 []; e 36 []] = Ok ents' /\
+                option_map en_children (nth_error ents' 0) = Some [2; 4; 1; 3]%nat.
+Proof. eexists. vm_compute. split; reflexivity. Qed.
+
+(* ---------------------------------------------------------------- no panic *)
+
+(* AttributeValue::size and ::write do not panic on any well-typed value (payloads within their Rust types,
+   ids issued by the tables of this write), for every encoding and both build modes *)
+Theorem size_no_panic : forall (dbg : bool) (cx : wcx) (v : aval),
+  av_typed cx v -> av_size dbg (wc_enc cx) v <> Panic.
+Proof. exact av_size_no_panic_lemma. Qed.
+
+Theorem write_no_panic : forall (dbg : bool) (cx : wcx) (v : aval),
+  av_typed cx v -> av_write dbg cx v <> Panic.
+Proof. exact av_write_no_panic_lemma. Qed.
+
+Check form_size_write_len : forall dbg cx v ops, av_write dbg cx v = Ok ops -> expr_ok v -> ops_len ops < 2 ^ 64 ->
+  av_size dbg (wc_enc cx) v = Ok (ops_len ops).
+Check abbrev_dedup : forall tab a code tab' ext, abbrev_add tab a = (code, tab') -> NoDup (tab' ++ ext) ->
+  abbrev_add (tab' ++ ext) a = (code, tab' ++ ext).
+Check unencodable_is_error : forall dbg cx v er, av_unencodable cx v = Some er -> av_write dbg cx v = Err er.
